@@ -245,9 +245,12 @@ def unit_ctor(model):
     return recs
 
 
-def unit_rebuild(model, sizes, ranks):
+def unit_rebuild(model, sizes, ranks, twins=False):
+    """twins: the first player of every other team is a stored snapshot (copy.deepcopy: same id, same
+    values, distinct object) of the first player of team 0 - a player against her own stored ghost"""
+    import copy as _copy
     recs = []
-    shape = f"sizes={sizes},ranks={ranks}"
+    shape = f"sizes={sizes},ranks={ranks}" + (",stored snapshot of a player in the same game" if twins else "")
     S = extract.Scratch(model)
     game.stub_gauss_uninterpreted(S)
     from .c14 import _do
@@ -260,6 +263,10 @@ def unit_rebuild(model, sizes, ranks):
                 m2, _ = game.mk_model(ctx, S)
                 g1 = game.mk_teams(ctx, S, sizes)
                 g0 = game.mk_teams(ctx, S, sizes)
+                if twins:
+                    for i in range(1, len(sizes)):
+                        g1[i][0] = _copy.deepcopy(g1[0][0])
+                        g0[i][0].mu, g0[i][0].sigma = g0[0][0].mu, g0[0][0].sigma
                 if via == "rating":
                     g2 = [[m2.rating(p.mu, p.sigma) for p in t] for t in g0]
                 else:
@@ -268,7 +275,7 @@ def unit_rebuild(model, sizes, ranks):
                 rb = _do(m2, op, g2, ranks)
 
                 def mk(md, clause=None):
-                    return {"kind": "c14_rebuild", "model": model, "op": op, "via": via, "ranks": ranks, "clause": clause,
+                    return {"kind": "c14_rebuild", "model": model, "op": op, "via": via, "ranks": ranks, "clause": clause, "twins": bool(twins),
                             "game": game.enc_game(md, sizes), "params": game.enc_params(md)}
                 ctx.oblige(f"C20/{model}/{op}/rebuild-identical[via={via}]@{shape}", game.compare_outcomes(ra, rb),
                            meta={"replay": mk, "fn": f"{model}.{op}", "shape": shape})
@@ -281,7 +288,7 @@ def unit_rebuild(model, sizes, ranks):
             explore(ctx, run)
             recs += _merge_canaries(settle(ctx.all_obls, mode="U"))
     # league step: game, rebuild every player from (mu, sigma), next game
-    if ranks is None:
+    if ranks is None and not twins:
         for op in OPS:
             ctx = Ctx("U")
 
@@ -306,7 +313,8 @@ def unit_rebuild(model, sizes, ranks):
 
 def units(tier):
     shapes = SHAPES_QUICK if tier == "quick" else SHAPES_THOROUGH
-    return [("unit_ctor", (m,)) for m in extract.MODELS] + [("unit_rebuild", (m, s, r)) for m in extract.MODELS for (s, r) in shapes]
+    return [("unit_ctor", (m,)) for m in extract.MODELS] + [("unit_rebuild", (m, s, r)) for m in extract.MODELS for (s, r) in shapes] + \
+        [("unit_rebuild", (m, (2, 1), [1, 2], True)) for m in extract.MODELS]
 
 
 def main(tier, seed):
